@@ -1048,6 +1048,20 @@ func FeasiblePaths(target ssa.Instruction, max int) (paths []Path, pruned int, o
 	tb := target.Block()
 	ok = true
 	onPath := map[*ssa.BasicBlock]bool{}
+	// decisions taken earlier on this path for syntactically identical
+	// comparisons (same operator, same SSA operands): go/ssa does no CSE, so
+	// `rc == nil` written twice yields two BinOps over the same value.
+	type cmpKey struct {
+		op   token.Token
+		x, y string
+	}
+	vkey := func(v ssa.Value) string {
+		if c, ok := v.(*ssa.Const); ok {
+			return "const:" + c.String() // constants are not interned in go/ssa
+		}
+		return fmt.Sprintf("%p", v)
+	}
+	decided := map[cmpKey][]bool{}
 	var cur Path
 	var dfs func(b *ssa.BasicBlock)
 	dfs = func(b *ssa.BasicBlock) {
@@ -1056,6 +1070,7 @@ func FeasiblePaths(target ssa.Instruction, max int) (paths []Path, pruned int, o
 		}
 		cur = append(cur, b)
 		onPath[b] = true
+		var pushed *cmpKey
 		if b == tb {
 			cp := make(Path, len(cur))
 			copy(cp, cur)
@@ -1065,7 +1080,19 @@ func FeasiblePaths(target ssa.Instruction, max int) (paths []Path, pruned int, o
 			}
 		} else {
 			only := -1
+			var thisKey *cmpKey
 			if iff, isIf := b.Instrs[len(b.Instrs)-1].(*ssa.If); isIf {
+				if bo, isB := iff.Cond.(*ssa.BinOp); isB {
+					k := cmpKey{bo.Op, vkey(cur.Resolve(bo.X)), vkey(cur.Resolve(bo.Y))}
+					thisKey = &k
+					if d := decided[k]; len(d) > 0 {
+						if d[len(d)-1] {
+							only = 0
+						} else {
+							only = 1
+						}
+					}
+				}
 				v := cur.Resolve(iff.Cond)
 				neg := false
 				for {
@@ -1092,7 +1119,15 @@ func FeasiblePaths(target ssa.Instruction, max int) (paths []Path, pruned int, o
 				if onPath[s] {
 					continue
 				}
+				if thisKey != nil && len(b.Succs) == 2 {
+					decided[*thisKey] = append(decided[*thisKey], i == 0)
+					pushed = thisKey
+				}
 				dfs(s)
+				if pushed != nil {
+					decided[*pushed] = decided[*pushed][:len(decided[*pushed])-1]
+					pushed = nil
+				}
 			}
 		}
 		onPath[b] = false
